@@ -11,6 +11,7 @@ CONSTANTS
   CacheMisses = TRUE
   VerBumps = FALSE
   Forges = FALSE
+  Legacies = FALSE
   FailKinds = {"fnerror2", "fatal1"}
 VIEW view
 ACTION_CONSTRAINT Emit
